@@ -331,7 +331,7 @@ def obligations(tier):
     return obs
 
 
-FLOORS = {"group:parametric": 600, "group:slice": 20, "group:update": 2, "group:coverage": 1}
+FLOORS = {"group:parametric": 540, "group:slice": 20, "group:update": 2, "group:coverage": 1}
 LEVEL = "proof"
 EXPLANATION = ("Batch parametricity: every public operation of every factor / measure / density / linear-conditional class is interpreted in its "
                "batch contexts and each returned array's normal form is inspected: every tensor that carries an operand's component index must carry "
